@@ -13,6 +13,7 @@ import (
 	stdhtml "html"
 	"io"
 	"math"
+	"net/url"
 	"path"
 	"regexp"
 	"sort"
@@ -1683,6 +1684,16 @@ func (ev *Evaluator) callFunction(g *ssa.Function, args []any, depth int) (any, 
 			return nil, nil
 		}
 	}
+	if nm := FuncName(g); nm == "encoding/xml.Unmarshal" && len(args) == 2 {
+		if ifc, ok := args[1].(*EIface); ok {
+			if target, ok := ifc.V.(*EPtr); ok && target != nil {
+				if data, ok := bytesOfVal(args[0]); ok {
+					return xmlUnmarshal(data, target, ifc.T)
+				}
+			}
+		}
+		return nil, notEval("xml.Unmarshal into %T", args[1])
+	}
 	// library functions see the values interface values hold
 	for i, a := range args {
 		if ifc, ok := a.(*EIface); ok {
@@ -1844,6 +1855,38 @@ func (ev *Evaluator) callFunction(g *ssa.Function, args []any, depth int) (any, 
 					return ETuple{int64(len(rest)), e}, nil
 				}
 			}
+		}
+	case "path.Join", "path/filepath.Join":
+		if parts, ok := stringsOf(args[0]); ok {
+			return path.Join(parts...), nil
+		}
+	case "path.Clean", "path/filepath.Clean":
+		if sv, ok := args[0].(string); ok {
+			return path.Clean(sv), nil
+		}
+	case "path.Dir", "path/filepath.Dir":
+		if sv, ok := args[0].(string); ok {
+			return path.Dir(sv), nil
+		}
+	case "path.IsAbs":
+		if sv, ok := args[0].(string); ok {
+			return path.IsAbs(sv), nil
+		}
+	case "net/url.PathUnescape":
+		if sv, ok := args[0].(string); ok {
+			out, err := url.PathUnescape(sv)
+			if err != nil {
+				return ETuple{"", &EErr{Msg: err.Error()}}, nil
+			}
+			return ETuple{out, nil}, nil
+		}
+	case "net/url.QueryUnescape":
+		if sv, ok := args[0].(string); ok {
+			out, err := url.QueryUnescape(sv)
+			if err != nil {
+				return ETuple{"", &EErr{Msg: err.Error()}}, nil
+			}
+			return ETuple{out, nil}, nil
 		}
 	case "path/filepath.Ext", "path.Ext":
 		if sv, ok := args[0].(string); ok {
